@@ -291,6 +291,8 @@ def do_ww3(rec, rng, ws, xr, d, kind):
         mech = "reader-raises:ww3_station"
         if nloc > 1 and isinstance(e, ValueError) and "reshape" in str(e) and len(np.unique(t["lat"])) * len(np.unique(t["lon"])) != nloc:
             mech = "ww3-station-points-not-on-a-grid-raises"      # defect model: points forced onto a lat x lon grid
+        elif nloc > 1 and "conflicting sizes for dimension 'site'" in str(e) and min(len(np.unique(t["lat"])), len(np.unique(t["lon"]))) < nloc:
+            mech = "ww3-station-points-sharing-a-latitude-or-longitude-raise"      # same model, other statement: lat / lon per site built from the unique values
         rec.bad("ww3_station", key, {"raised": repr(e)[:300], "lat": t["lat"], "lon": t["lon"], "nloc": nloc}, mech)
         return
     backend_same(rec, rng, xr, "ww3_station", paths[0], out)
